@@ -21,7 +21,7 @@ def finding_for(pid, harness, failed_checks):
 
 
 def decide(pid, tier, scratch, crate, metas, cwd=None, timeout_s=900, replay_kw=None,
-           harness_timeout=None, extra_replay=None, jobs=None):
+           harness_timeout=None, extra_replay=None, jobs=None, kani_extra=None):
     """Runs the harnesses in `metas` (name -> meta dict); returns (records, violations, known,
     inconclusive) where violations are natively reproduced counterexamples."""
     names = list(metas)
@@ -30,7 +30,7 @@ def decide(pid, tier, scratch, crate, metas, cwd=None, timeout_s=900, replay_kw=
     if s:
         names = names[s % len(names):] + names[:s % len(names)]
     recs, out, wall = kani(scratch, crate, names, timeout_s=timeout_s, cwd=cwd,
-                           harness_timeout=harness_timeout, jobs=jobs)
+                           harness_timeout=harness_timeout, jobs=jobs, extra=kani_extra)
     violations, known, inconclusive = [], [], []
     for h in names:
         r = recs[h]
@@ -57,15 +57,24 @@ def decide(pid, tier, scratch, crate, metas, cwd=None, timeout_s=900, replay_kw=
             violations.append({"harness": h, "failed_checks": fcs, "values": [], "native_replay": {"skipped": "two other counterexamples of this run already reproduced"},
                                "what": metas[h].get("desc", "")})
             continue
-        vals, pout = kani_playback_values(scratch, crate, h, cwd=cwd)
-        if vals is None:
+        cands, pout = kani_playback_values(scratch, crate, h, cwd=cwd, extra=kani_extra)
+        if cands is None:
             inconclusive.append((h, "FAILED but no concrete values could be extracted" + (" (unwinding bound hit)" if only_unwind else "")))
             continue
+        # one candidate per failed check: replay them in turn until one reproduces natively
+        rep, outs, vals = None, None, None
+        tried = []
+        for desc, cv in cands[:4]:
+            r1, o1 = native_replay(scratch, crate, h, cv, cwd=cwd, **(replay_kw or {}))
+            tried.append({"failed_check": desc, "values": [str(v) for v in cv], "native_replay": r1})
+            log("    solver values for %r: %s -> native replay %s" % (desc[:60], cv, r1))
+            if rep is None or any(v == "reproduced" for v in r1.values()):
+                rep, outs, vals = r1, o1, cv
+            if any(v == "reproduced" for v in r1.values()):
+                break
         r["counterexample_values"] = [str(v) for v in vals]
-        rep, outs = native_replay(scratch, crate, h, vals, cwd=cwd, **(replay_kw or {}))
+        r["counterexamples_tried"] = tried
         r["native_replay"] = rep
-        log("    solver values: %s" % vals)
-        log("    native replay: %s" % rep)
         if any(v == "reproduced" for v in rep.values()) and extra_replay is not None:
             # second opinion from the real codecs / real endpoints (tokio runtime): the
             # counterexample's values are fed to /verif/replay's integration tests
